@@ -114,13 +114,17 @@ impl C05 {
                 }
             }
             None => {
+                // the explored set of one shard is capped at 3 M positions (memory); visits beyond that are
+                // still hashed and compared against the set, but not added to it
                 if seen.len() < 3_000_000 {
                     seen.insert(h, (key, p.fen4()));
+                    if !ev.frozen {
+                        ev.pairs.push((h, key));
+                    }
+                    ev.nontrivial(key, || json!({"position": p.fen4(), "hash": format!("{:X}", h)}));
+                } else {
+                    ev.class("visits_beyond_the_explored_set_cap");
                 }
-                if !ev.frozen {
-                    ev.pairs.push((h, key));
-                }
-                ev.nontrivial(key, || json!({"position": p.fen4(), "hash": format!("{:X}", h)}));
             }
         }
         Ok(())
